@@ -236,7 +236,8 @@ impl Property for C02 {
                 "hook monitor (feature verif-hooks): buffered < buffer length at every blocking read, byte conservation fed = consumed + buffered".into(),
             ],
             exhaustive: None,
-            floors: vec![("streams_buffer-edge".into(), 5), ("probes".into(), 1000), ("buffer_growths_seen".into(), 1)],
+            // (no floor on hook-derived counters: a refactoring that drops a probe must not turn into an alarm)
+            floors: vec![("streams_buffer-edge".into(), 5), ("streams_all_2way_splits_exhaustive".into(), 50)],
             extra: vec![],
         }
     }
